@@ -10,23 +10,23 @@ ROOT = os.path.dirname(os.path.dirname(os.path.abspath(__file__)))
 TABLE = {
     "C01": (
         "Hypothesis PBT over lattice assemblies; differential oracle = independent blockMeshDict parser + union-find over shared vertex-id pairs; expected-exception oracle for conflicting chops",
-        "Generated search (exploration): random assemblies of <= 8 hexahedra in all 24 numberings and insertion orders with consistent, redundant and conflicting chops; every written file is re-read by an independent parser and cell counts are compared on every shared edge and with the live wires; conflicting models must raise InconsistentGradingsError and leave no file. Finds counter-examples, cannot prove absence.",
-        "Trusts vf/foamdict.py (reader) and vf/refmodel.py (hex edge table from the OpenFOAM user guide). Bounded to <= 8 blocks cut from a 3x3x3-or-smaller node lattice; conflicts are count-vs-count.",
+        "Generated search (exploration): random assemblies of <= 8 hexahedra (dedicated conflict arrangements <= 12: a dissenting block in a crowd, two camps along a row) in all 24 numberings and insertion orders with consistent, redundant and conflicting chops, written once, twice or after an explicit grade(), with drawn mesh settings and cellZones; every written file is re-read by an independent parser and cell counts are compared on every shared edge and with the live wires; conflicting models must raise InconsistentGradingsError and leave no file, also at a second write. Finds counter-examples, cannot prove absence.",
+        "Trusts vf/foamdict.py (reader) and vf/refmodel.py (hex edge table from the OpenFOAM user guide). Bounded to <= 12 blocks cut from a 3x3x3-or-smaller node lattice; conflicts are count-vs-count.",
     ),
     "C02": (
         "Hypothesis PBT with harness-owned schedules (set iteration orders injected), call-count fuel for termination, metamorphic relation over insertion order / numbering / schedule",
-        "Generated search (exploration) over models x insertion orders x 24 numberings x iteration orders of every address-hashed set reachable from blocks/axes/wires; termination is decided by a deterministic fuel bound, completeness against families computed by an independent union-find, determinism by byte-comparison of files across schedules; plus an enumerated regression model (all 6 orders of the decisive neighbour set).",
-        "Every permutation of an address-hashed set is assumed feasible. Fuel limit 20k + 40k library calls per block (>= 40x the measured cost). <= 8 blocks.",
+        "Generated search (exploration) over models x insertion orders x 24 numberings x iteration orders of every address-hashed set reachable from blocks/axes/wires; termination is decided by a deterministic fuel bound, completeness against families computed by an independent union-find (also across merged master/slave interfaces with drawn patch names, and over histories of clear / backport / edited chops judged against a {family: count} model), order independence also for counts derived from a cell size on shared circular arcs, determinism by byte-comparison of files across schedules and allocator shifts; plus an enumerated regression model (all 6 orders of the decisive neighbour set).",
+        "Every permutation of an address-hashed set is assumed feasible. Fuel limit 20k + 40k library calls per block (>= 40x the measured cost). <= 12 blocks. Vertex identity across merged pairs = (lattice node, set of slave patches on the block's faces at that corner).",
     ),
     "C03": (
         "Hypothesis PBT, differential against an independent geometric-progression model; round-trip (inversion) relation; thorough tier adds atheris/libFuzzer coverage-guided campaigns through the same strategies and oracle",
-        "Generated search (exploration) over six decades of length, all 10 parameter pairs, counts 1..200, ratios in [0.5, 2] with a dedicated neighbourhood-of-1 and exact-integer generator; results are compared with an independent model of blockMesh's progression; realisable sets in a stated core domain must be accepted.",
+        "Generated search (exploration) over six decades of length, all 10 parameter pairs, counts 1..200, ratios in [0.5, 2] with a dedicated neighbourhood-of-1 and exact-integer generator; results are compared with an independent model of blockMesh's progression; realisable sets in a stated core domain must be accepted; also Chop.invert, Chop.copy_preserving (reversed against straight copy), multi-section Grading incl. .inverted and reused Chop objects, and the text Grading.description prints.",
         "Trusts vf/refmodel.gp_* as the blockMesh semantics. Tolerance 1e-9 + n*1.5e-7 relative on realised sizes. One known finding (count = 1 with start size) is matched narrowly.",
     ),
     "C04": (
         "Hypothesis PBT on jittered lattices; differential: per-edge cell-size sequences from the parsed file (independent GP model) compared across blocks; invariant on preserved first/last sizes",
-        "Generated search (exploration): assemblies with unequal edge lengths, all numberings (anti-aligned neighbours in ~65 % of cases), all preserve modes, 1-3 section chops; each hex entry is expanded to 12 edge gradings and the physical size sequence compared on every shared edge, with the live wires, and preserved sizes compared over the whole family at the geometrically same end.",
-        "Straight edges only (lengths from parsed vertices, 8 decimals); relative tolerance 1e-6. Trusts vf/foamdict.py and vf/refmodel.multi_sizes.",
+        "Generated search (exploration): assemblies with unequal edge lengths (jitter, vertices moved after assembly, circular arcs incl. arcs on shared edges declared by either block, models down to 5e-4 in size), all numberings (anti-aligned neighbours in ~65 % of cases), all preserve modes, 1-3 section chops incl. wall sections that preserve the first / last cell; each hex entry is expanded to 12 edge gradings and the physical size sequence compared on every shared edge, with the live wires, and preserved sizes compared over the whole family at the geometrically same end; one case in three judges the file of a second write.",
+        "Edge lengths from the parsed file (vertex distance, or R*theta of the circle through the three points of an arc entry); relative tolerance 1e-6 plus the 8-decimal rounding of vertices. Trusts vf/foamdict.py and vf/refmodel.multi_sizes.",
     ),
     "C05": (
         "Hypothesis PBT; differential against a reference partition of (operation, corner) computed from lattice bookkeeping; metamorphic over insertion order",
@@ -36,7 +36,7 @@ TABLE = {
     "C06": (
         "Hypothesis PBT over generated user scripts; differential: script-level model kept by the generator vs. the file re-read by an independent blockMeshDict/VTK parser",
         "Generated search (exploration): programs of 1-3 entities (Box, Loft clusters in 24 numberings, Extrude, Revolve, Wedge, Cylinder, ExtrudedRing, Hemisphere, Grid stack, stacked boxes with a real merged interface) and 0-10 statements (patches, zones, side/edge/corner projections, geometry, merges, default patch, modify_patch, settings, delete) in shuffled order; every section of the written file and the debug VTK is compared with the model.",
-        "Trusts vf/foamdict.py and vf/x_script.py (model). Edge entries are only validity-checked here (C07 decides them). One known finding (F15) is confined to a witness cell.",
+        "Trusts vf/foamdict.py and vf/x_script.py (model). Edge entries are only validity-checked here (C07 decides them). F15 (copied sphere) was repaired; its witness cell stays as a regression cell.",
     ),
     "C07": (
         "Hypothesis PBT + enumerated grid (kind x 12 positions x face histories); invariant/differential oracle on the parsed edges section with geometric ground truth",
@@ -55,8 +55,8 @@ TABLE = {
     ),
     "C11": (
         "Hypothesis PBT over all shape classes in random placement; invariants (corner Jacobians, vertex/block counts, face connectivity, arcs on circle) + write succeeds + parsed-file count agreement",
-        "Generated search (exploration): 36 cells - round shapes, rings, hemisphere, joints, operations, shell, 13 sketches under 5 sweeps, 4 stack kinds, chains of up to 3 steps (chain/expand/contract/fill): independent Jacobians > 0, expected vertex and block counts, no face used by three blocks, outer arcs on the intended circle, documented chops make write succeed with consistent counts, chained shapes share exactly the interface vertices.",
-        "Jacobians are evaluated on the straight-edged block. Joints and big shapes have small case counts in the quick tier.",
+        "Generated search (exploration): 37 cells - round shapes, rings, hemisphere, joints, operations, shell, 13 sketches under 5 sweeps, 4 stack kinds, chains of up to 3 steps (chain/expand/contract/fill): independent Jacobians > 0, expected vertex and block counts, no face used by three blocks, outer arcs on the intended circle, documented chops make write succeed with consistent counts, chained shapes share exactly the interface vertices.",
+        "Jacobians are evaluated on the straight-edged block. Joints and big shapes have small case counts in the quick tier. One known finding (C11-N3: chaining onto a mirrored shape extrudes back into it) is confined to a witness cell with the source mirrored.",
     ),
     "C12": (
         "Model-based testing over generated API histories (JSON programs interpreted against the real Mesh and a script-level model); differential against a fresh build",
@@ -81,12 +81,12 @@ TABLE = {
     "C17": (
         "Hypothesis PBT; differential against analytic manifolds and independent link relations (Rodrigues rotation, 4x4 mirror)",
         "Generated search (exploration): clamps of every type created on and off their manifold in general position (non-unit, non-zero), parameters within bounds; links with leader moves of any size; creation position / closest point, manifold membership and declared parametrisation, follower relation, leader bit-identical after update.",
-        "Creation tolerance 1e-3 + 1e-2 x scale (derived from the library's ftol). Two known findings on polyline curve clamps are matched narrowly.",
+        "Creation tolerance 1e-3 + 1e-2 x scale (derived from the library's ftol). The two findings on polyline curve clamps were repaired in /repo (closest-parameter search).",
     ),
     "C19": (
         "Hypothesis PBT; differential: position of each addressed entity in the stack's / shape's own frame (harness's layer maps), parsed file after delete",
         "Generated search (exploration): Grid n1 x n2 in 1..5, 1-4 tiers, extruded/revolved/transformed stacks, 8 round shapes and 12 sketches in general placement; grid[k][j][i] and get_slice checked by position, core/shell partition by contact with the outer curve, delete/chop of an addressed entity hits exactly that hex in the written file.",
-        "WrappedDisk (three tiers) partition is not required to be exhaustive. One known finding (HalfSplineDisk grid) matched narrowly.",
+        "WrappedDisk (three tiers) partition is not required to be exhaustive. The HalfSplineDisk grid finding was repaired in /repo.",
     ),
     "C20": (
         "Hypothesis PBT + enumerated boundary grids; expected accept/reject class from the documented condition; metamorphic symmetry (+delta / -delta); thorough tier adds atheris/libFuzzer campaigns on the index/count cells",
@@ -96,7 +96,7 @@ TABLE = {
     "C09": (
         "Hypothesis PBT; metamorphic relation: geometry after Mesh.assemble() of the transformed entity vs. an independent affine map (Rodrigues / 4x4) applied to the geometry of the untransformed entity; copy independence",
         "Generated search (exploration): 63 entity classes (points, arrays, curves, every edge kind alone / on faces / on lofts, operations, 15 sketches, round shapes, rings, hemisphere, shell, stacks, joints) x {translate, rotate, scale, mirror, compositions of 2-3, copy}, by method call and by transform([...]) lists, origins != 0 and default, non-unit axes/normals; vertex positions, realised edge shapes (arc circle and side, control points in entry direction, labels) and Edge.length (x |ratio|) must equal the mapped originals; helpers must not mutate arguments.",
-        "After mirrors the corner numbering may legitimately be kept or swapped (both accepted). Known findings F15, F16b (transform() called directly on edge data / curves) and F10 are matched by narrow causes; a listed cause is raised only if nothing else is wrong in the case.",
+        "After mirrors the corner numbering may legitimately be kept or swapped (both accepted). Known findings F16b (transform() called directly on edge data / curves) and F10 are matched by narrow causes (F15 was repaired); a listed cause is raised only if nothing else is wrong in the case.",
     ),
     "C16": (
         "Hypothesis PBT; round-trip / additivity invariants and differential against dense adaptive sampling and closed forms",
